@@ -26,7 +26,7 @@ CIRCUIT_ERRORS = ('CircuitError',)
 # op kind -> property whose statement implies that a *valid* call succeeds
 FAMILY = {
     'connect': 'C10', 'rename': 'C19', 'replace_inputs': 'C19', 'remove_gate': 'C19',
-    'replace_subcircuit': 'C19', 'into_bench': 'C14', 'graphviz_bench': 'C14',
+    'replace_subcircuit': 'C19', 'into_bench': 'C14', 'graphviz_bench': 'C14', 'rebench': 'C14',
 }
 
 MIX = {
@@ -39,8 +39,9 @@ MIX = {
             'make_block': 1, 'copy': 2, 'remove_gate': 1, 'replace_inputs': 1, 'into_bench': 1},
     'C19': {'new': 3, 'add_gate': 6, 'rename': 8, 'replace_inputs': 6, 'remove_gate': 6, 'replace_subcircuit': 10,
             'mark_output': 2, 'connect': 3, 'make_block': 3, 'block_from_slice': 1, 'copy': 1, 'into_bench': 1},
-    'C14': {'new': 4, 'add_gate': 8, 'into_bench': 10, 'graphviz_bench': 2, 'make_block': 5, 'block_from_slice': 2,
-            'rename': 2, 'copy': 2, 'connect': 3, 'mark_output': 2, 'replace_inputs': 2},
+    'C14': {'new': 4, 'add_gate': 9, 'into_bench': 10, 'graphviz_bench': 2, 'make_block': 5, 'block_from_slice': 2,
+            'rename': 3, 'remove_gate': 2, 'copy': 2, 'connect': 3, 'mark_output': 2, 'replace_inputs': 2, 'replace_subcircuit': 3,
+            'rebench': 3},
 }
 
 
@@ -118,6 +119,7 @@ class Hist:
         self.next_sid = 0
         self.fresh = 0
         self.retired = []
+        self.label_types = {}
         uuidsrc.source.reset(run_seed, self.cfg.get('uuid_order', 'asc'))
         for i, op in enumerate(run['ops']):
             self.opi = i
@@ -163,6 +165,8 @@ class Hist:
 
     def new_slot(self, real, kin=()):
         net, users = observe.snap(real)
+        for g, (t, _) in net.gates.items():
+            self.label_types.setdefault(g, set()).add(t)
         s = Slot(real, net, users, self.next_sid, kin)
         self.next_sid += 1
         if len(self.pop) >= MAXPOP:
@@ -181,19 +185,19 @@ class Hist:
         # re-use names, and anything derived from a label (helper gates, block names, caches) must cope
         retired = getattr(self, 'retired', None)
         if retired and rng.random() < 0.2:
-            cands = [l for l in retired if l not in net.gates and l not in extra]
+            cands = [l for l, _ in retired if l not in net.gates and l not in extra]
             if cands:
                 self.res.stats.probes.bump('freed-label-reused')
                 return cands[rng.randrange(len(cands))]
         self.fresh += 1
         return gennet.make_label(rng, self.cfg.get('alphabet', 'plain'), 100 + self.fresh, set(net.gates) | set(extra))
 
-    def retire(self, label):
+    def retire(self, label, gtype=None):
         r = getattr(self, 'retired', None)
         if r is None:
             r = self.retired = []
-        if label not in r and not label.startswith('__'):
-            r.append(label)
+        if all(l != label for l, _ in r) and not label.startswith('__'):
+            r.append((label, gtype))
             if len(r) > 12:
                 r.pop(0)
 
@@ -393,6 +397,11 @@ class Hist:
             t = 'INPUT'
         ops = () if t == 'INPUT' else gennet.pick_operands(rng, t, labels, self.cfg['max_arity'])
         lab = self.fresh_label(rng, net)
+        had = sorted(x for x in self.label_types.get(lab, ()) if x != 'INPUT' and x in self.types())
+        if had and labels and rng.random() < 0.7:
+            # the label is re-used for a gate of a type it had earlier in this run (with other operands)
+            t = rng.choice(had)
+            ops = gennet.pick_operands(rng, t, labels, self.cfg['max_arity'])
         valid = True
         if invalid and labels:
             if rng.random() < 0.5:
@@ -404,12 +413,23 @@ class Hist:
             valid = False
         use_emplace = rng.random() < 0.5
         GT, Gate = self.GT, self.Gate
+        gate_obj = None
         if use_emplace:
             fn = lambda: s.real.emplace_gate(lab, GT[t], tuple(ops))
         else:
-            fn = lambda: s.real.add_gate(Gate(lab, GT[t], tuple(ops)))
+            gate_obj = Gate(lab, GT[t], tuple(ops))
+            fn = lambda: s.real.add_gate(gate_obj)
         self.call(fn, [s], valid, f'#{s.sid}.{"emplace_gate" if use_emplace else "add_gate"}({lab!r},{t},{list(ops)})')
+        self.label_types.setdefault(lab, set()).add(t)
         self.settle([s])
+        if gate_obj is not None and valid and rng.random() < 0.25:
+            # Gate objects are values: the caller adds the very same object to a second circuit where it fits
+            for o in self.pop:
+                if o is not s and lab not in o.net.gates and all(x in o.net.gates for x in ops) and len(o.net.gates) < MAX_GATES:
+                    self.call(lambda: o.real.add_gate(gate_obj), [o], True, f'#{o.sid}.add_gate(<same Gate object {lab!r}>)')
+                    self.settle([o])
+                    self.res.stats.probes.bump('gate-object-shared-between-circuits')
+                    break
         if len(set(ops)) < len(ops):
             self.res.stats.probes.bump('gate-with-repeated-operand')
 
@@ -460,7 +480,7 @@ class Hist:
         if not valid:
             self.violate('C19', 'remove', 'removed-gate-with-users', f'remove_gate({g}) returned although {users[g]} use it')
         self.ev['out'] = 'ok'
-        self.retire(g)
+        self.retire(g, pre.gates.get(g, (None,))[0])
         now, _ = observe.snap(s.real)
         if g in now.gates or g in now.outputs:
             self.violate('C19', 'remove', 'label-still-present', f'{g} still in gates/outputs after remove_gate')
@@ -498,7 +518,7 @@ class Hist:
         pre = net.copy()
         pre_users = dict(s.users)
         self.call(lambda: s.real.rename_gate(old, new), [s], valid, f'#{s.sid}.rename_gate({old!r},{new!r})')
-        self.retire(old)
+        self.retire(old, pre.gates.get(old, (None,))[0])
         now, nusers = observe.snap(s.real)
         ren = lambda x: new if x == old else x
         exp_gates = {ren(g): (t, tuple(ren(o) for o in ops)) for g, (t, ops) in pre.gates.items()}
@@ -1214,6 +1234,36 @@ class Hist:
         s = self.pick(rng, lambda s: len(s.net.gates) > 0)
         if s is None:
             return
+        self._into_bench_on(s)
+
+    def op_rebench(self, op, rng):
+        """Convert, edit, convert again: after a conversion the label of a rewritten gate is freed (renamed away)
+        and used for a new gate of the type it had before, then the circuit is converted a second time."""
+        s = self.pick(rng, lambda s: s.net.inputs and any(t in ('LT', 'GT', 'LEQ', 'GEQ', 'ALWAYS_TRUE', 'ALWAYS_FALSE')
+                                                          for t, _ in s.net.gates.values()) and len(s.net.gates) < MAX_GATES - 6)
+        if s is None:
+            return
+        before = s.net.copy()
+        self._into_bench_on(s)
+        rewritten = [g for g, (t, _) in before.gates.items() if t in ('LT', 'GT', 'LEQ', 'GEQ', 'ALWAYS_TRUE', 'ALWAYS_FALSE') and g in s.net.gates]
+        if not rewritten:
+            return
+        g = rng.choice(rewritten)
+        t_old = before.gates[g][0]
+        away = self.fresh_label(rng, s.net)
+        self.call(lambda: s.real.rename_gate(g, away), [s], True, f'#{s.sid}.rename_gate({g!r},{away!r}) [rebench]', family='C19')
+        self.settle([s])
+        labels = [x for x in s.net.gates]
+        ops = gennet.pick_operands(rng, t_old, labels, 2) if t_old not in ('ALWAYS_TRUE', 'ALWAYS_FALSE') else ()
+        self.call(lambda: s.real.emplace_gate(g, self.GT[t_old], tuple(ops)), [s], True, f'#{s.sid}.emplace_gate({g!r},{t_old},{list(ops)}) [rebench]')
+        self.settle([s])
+        if rng.random() < 0.5:
+            self.call(lambda: s.real.mark_as_output(g), [s], True, f'#{s.sid}.mark_as_output({g!r}) [rebench]')
+            self.settle([s])
+        self.res.stats.probes.bump('bench-convert-edit-convert')
+        self._into_bench_on(s)
+
+    def _into_bench_on(self, s):
         pre = s.net.copy()
         has_const = any(t in CONST for t, _ in pre.gates.values())
         valid = True if pre.inputs else (False if has_const else None)
